@@ -7,6 +7,7 @@
     the transaction shape makes the corresponding [Lemma] stop checking. *)
 From Coq Require Import List NArith Bool String.
 From Verif Require Import Kv.KeyOrd Kv.AList Kv.Spec Kv.Mem Kv.Sql Kv.Refine Gen.KvSql.
+From Verif Require Import Kv.Own Kv.OwnSkel Kv.OwnProofs Kv.Tables Kv.TablesProofs Gen.KvMemOwn.
 Import ListNotations.
 Local Open Scope string_scope.
 
@@ -37,10 +38,34 @@ Proof. reflexivity. Qed.
 Lemma gen_max_key_len_frozen : gen_max_key_len = 255%N.
 Proof. reflexivity. Qed.
 
-(** [k] unique, all three columns not null (sqlite3.go). *)
-Lemma gen_sqlite_scheme_frozen :
-  gen_sqlite_scheme = "( k text not null unique, c text not null, v blob not null )".
-Proof. reflexivity. Qed.
+(** [k] unique, all three columns not null (sqlite3.go): what the SQL model
+    (Kv/Sql.v) needs of the table, as a decidable
+    condition on the parsed scheme rather than on its text: columns k, c, v;
+    k text, unique (or primary key) and not null; c text not null; v blob not
+    null; no other clause (collation, default, check). *)
+Fixpoint has_word (w : string) (l : list string) : bool :=
+  match l with
+  | [] => false
+  | x :: t => String.eqb x w || has_word w t
+  end.
+
+Definition known_words (l : list string) : bool :=
+  forallb (fun w => String.eqb w "not null" || String.eqb w "unique" || String.eqb w "primary key") l.
+
+Definition scheme_okb (cols : list (string * string * list string)) : bool :=
+  match cols with
+  | [(k, tk, ck); (c, tc, cc); (v, tv, cv)] =>
+      String.eqb k "k" && String.eqb c "c" && String.eqb v "v" &&
+      String.eqb tk "text" && String.eqb tc "text" && String.eqb tv "blob" &&
+      known_words ck && known_words cc && known_words cv &&
+      has_word "not null" ck && (has_word "unique" ck || has_word "primary key" ck) &&
+      has_word "not null" cc && negb (has_word "unique" cc) && negb (has_word "primary key" cc) &&
+      has_word "not null" cv && negb (has_word "unique" cv) && negb (has_word "primary key" cv)
+  | _ => false
+  end.
+
+Lemma gen_sqlite_scheme_ok : scheme_okb gen_sqlite_columns = true.
+Proof. vm_compute. reflexivity. Qed.
 
 (** The refinement theorems, for the statement tables of the current source. *)
 Lemma gen_sqlite_step_refines : step_refines (sql_step gen_sqlite_methods).
@@ -66,3 +91,40 @@ Lemma gen_backends_agree ops :
   snd (run mem_step [] ops) = snd (run (sql_step gen_sqlite_methods) [] ops) /\
   abs (fst (run mem_step [] ops)) = abs (fst (run (sql_step gen_sqlite_methods) [] ops)).
 Proof. rewrite gen_sqlite_methods_frozen. exact (backends_agree ops). Qed.
+
+(** ** Who owns the bytes (mem_entry.go)
+
+    The four functions through which bytes enter and leave an entry have the
+    copying shapes (Kv/OwnSkel.v [copies_of]); nothing else in the package
+    touches an entry's buffer.  A function that keeps the caller's slice
+    (bytes.NewBuffer(bs)), hands out the buffer's storage, or contains a
+    statement the translator does not know makes [gen_mem_entry_copies] stop
+    checking. *)
+Lemma gen_mem_entry_copies : copies_of gen_mem_entry_skel = all_copy.
+Proof. reflexivity. Qed.
+
+Lemma gen_mem_buf_private : gen_mem_buf_outside = [].
+Proof. reflexivity. Qed.
+
+Lemma gen_mem_contents_history_only ops :
+  run_okb (copies_of gen_mem_entry_skel) own_init ops = true ->
+  cont (fst (own_run (copies_of gen_mem_entry_skel) own_init ops))
+  = fst (run mem_step [] (erase_run (copies_of gen_mem_entry_skel) own_init ops)) /\
+  snd (own_run (copies_of gen_mem_entry_skel) own_init ops)
+  = snd (run mem_step [] (erase_run (copies_of gen_mem_entry_skel) own_init ops)).
+Proof. rewrite gen_mem_entry_copies. exact (contents_history_only ops). Qed.
+
+Lemma gen_mem_store_buffers_private ops :
+  run_okb (copies_of gen_mem_entry_skel) own_init ops = true ->
+  let '(st, h, kn) := fst (own_run (copies_of gen_mem_entry_skel) own_init ops) in
+  forall b, In b (bufs st) -> ~ In b kn.
+Proof. rewrite gen_mem_entry_copies. exact (store_buffers_private ops). Qed.
+
+(** ** Several handles over the tables of one database (tables.go) *)
+Lemma gen_sqlite_tables_refine maxlen hk jv hs slots ops :
+  forallb lop_okb ops = true ->
+  snd (run (l_step maxlen hk jv (sql_step gen_sqlite_methods) true hs) (init_state true slots) ops)
+  = snd (run (l_step maxlen hk jv spec_step true hs) (init_state true slots) ops) /\
+  srel (fst (run (l_step maxlen hk jv (sql_step gen_sqlite_methods) true hs) (init_state true slots) ops))
+       (fst (run (l_step maxlen hk jv spec_step true hs) (init_state true slots) ops)).
+Proof. exact (tables_refine_spec maxlen hk jv _ true hs slots ops gen_sqlite_step_refines). Qed.
